@@ -193,9 +193,9 @@ add("C11",
     "point, where destructors of cached values run: whatever is cached for a required specification afterwards is subscribed to it, for every accepted step "
     "order; old_order_rejected: the order before repair 90f8c8c is rejected with its reachable bad state). The IR terms of _subcache, _getcache, _lookup, _lookup1, _lookupAll, _subscriptions, _verify, the iteration mode of the "
     "loops run by changed(), the step sequence of AdapterLookupBase.changed and the step IR of the twelve registry mutators are REGENERATED from the current C / Python sources on every run (tools/cextract.py, "
-    "fails closed) and Lean decides the thirteen obligations. Runtime tie: sixteen re-entrancy scenario families x two flavours x up to seven entry points x both "
+    "fails closed) and Lean decides the thirteen obligations. Runtime tie: twenty re-entrancy scenario families x two flavours x up to seven entry points x both "
     "twins on the real code (stray write via the dict free list, stale answer, ancestor re-based in flight, leaks, lazy required, mutating __providedBy__, "
-    "Python-level __hash__ / __bool__ of the keys, generation reads, destructors of cached values, storage hooks mid-walk, mutators interrupted at every storage access); thorough adds a thread stress.",
+    "Python-level __hash__ / __bool__ of the keys, generation reads, destructors of cached values (answers, leaks), change notifications, a required interface re-based mid-walk, storage hooks mid-walk, mutators interrupted at every storage access); thorough adds a thread stress.",
     "stated_not_proved: C11_atomic at step granularity. Not modelled: preemption inside Python bytecode of the pure-Python twin finer than callbacks, free-threaded "
     "builds, allocator behaviour beyond the dict free list. _adapter_hook is not translated (covered by the scenarios). The translator's table of which C-API calls "
     "return borrowed / new references and which may run Python code is trusted (dictionary probes, PyObject_IsTrue and rich comparisons ARE callback points since "
